@@ -186,3 +186,8 @@ Definition all_zero (l : list sample) : bool := forallb is_zero l.
 (* nth sample of a concrete array, zero outside (the rows of RepeatFactory) *)
 Definition nth_sample (w : list sample) (k : Z) : sample :=
   if (0 <=? k) && (k <? zlen w) then nth (Z.to_nat k) w szero else szero.
+
+(* RepeatFactory, stated on the array w the input generator returned in ONE draw of all its samples:
+   rows skip .. skip+n-1 of length `period` carry w at column sdelay, everything else is zero *)
+Definition repeat_row_stream (n skip period sdelay : Z) (w : list sample) (p : Z) : sample :=
+  if (skip <=? p / period) && (p / period <? skip + n) then nth_sample w (p mod period - sdelay) else szero.
